@@ -863,6 +863,10 @@ func (w *World) setRelationArch(oldArch *archetype, oldArchLen uint32, comp ID, 
 }
 
 func (w *World) checkRelation(arch *archetype, comp ID) {
+	if !arch.node.HasRelation {
+		// Nodes without a relation have Relation ID zero, which must not be mistaken for component ID 0.
+		w.relationError(arch, comp)
+	}
 	if arch.node.Relation.id != comp.id {
 		w.relationError(arch, comp)
 	}
